@@ -517,6 +517,11 @@ class HostConnection(object):
             keyspace = self._keyspace
             if keyspace and conn.keyspace != keyspace:
                 conn.set_keyspace_blocking(keyspace)
+            if self.is_shutdown:
+                # the pool was shut down while the replacement was being opened
+                self._connection = None
+                conn.close()
+                return
         except Exception:
             log.warning("Failed reconnecting %s. Retrying." % (self.host.endpoint,))
             self._session.submit(self._replace, connection)
